@@ -41,7 +41,23 @@ func c05Operands(t *rapid.T) []string {
 func c05Step(t *rapid.T) kit.Argv {
 	k := c05Key(t)
 	cn := func(s string) string { return randCase(t, s) }
-	switch weighted(t, "cmd", []int{10, 6, 2, 3, 3, 4, 6, 4, 7, 9, 5, 1, 1, 3}) {
+	switch weighted(t, "cmd", []int{10, 6, 2, 3, 3, 4, 6, 4, 7, 9, 5, 1, 1, 3, 3, 3}) {
+	case 14:
+		// big set: the table grows beyond its initial 16 buckets
+		a := []string{"SADD", pick(t, "bigk", "s1", "s2", "s3")}
+		lo := rapid.IntRange(0, 30).Draw(t, "lo")
+		for i := lo; i < lo+rapid.IntRange(12, 45).Draw(t, "n"); i++ {
+			a = append(a, "b"+strconv.Itoa(i))
+		}
+		return kit.A(a...)
+	case 15:
+		// removal history: any number of earlier removals (the table's shrink counter) before an algebra command
+		a := []string{"SREM", pick(t, "bigk", "s1", "s2", "s3")}
+		lo := rapid.IntRange(0, 50).Draw(t, "lo")
+		for i := lo; i < lo+rapid.IntRange(1, 40).Draw(t, "n"); i++ {
+			a = append(a, "b"+strconv.Itoa(i))
+		}
+		return kit.A(a...)
 	case 0:
 		return kit.A(append([]string{cn("SADD"), k}, c05Members(t, 1, 4)...)...)
 	case 1:
@@ -92,10 +108,44 @@ func c05Step(t *rapid.T) kit.Argv {
 	}
 }
 
+// c05Sparse: a few members from a wide name space (so that hash collisions make the one-item-per-bucket
+// table 32, 64 ... buckets wide while it holds only a handful of members), a drawn number of add/remove
+// cycles (the table's removal counter decides when it is rehashed to half its size), and then set algebra
+// whose result construction removes members from a copy of that table.
+func c05Sparse(t *rapid.T) []kit.Argv {
+	var out []kit.Argv
+	name := func() string { return "w" + strconv.Itoa(rapid.IntRange(0, 199).Draw(t, "w")) }
+	a := []string{"SADD", "s1"}
+	common := name()
+	a = append(a, common)
+	for i := rapid.IntRange(2, 8).Draw(t, "na"); i > 0; i-- {
+		a = append(a, name())
+	}
+	out = append(out, kit.A("DEL", "s1", "s2"), kit.A(a...))
+	b := []string{"SADD", "s2", common}
+	for i := rapid.IntRange(0, 3).Draw(t, "nb"); i > 0; i-- {
+		b = append(b, pick(t, "shared", a[2:]...))
+	}
+	b = append(b, name())
+	out = append(out, kit.A(b...))
+	for i := rapid.IntRange(0, 20).Draw(t, "cycles"); i > 0; i-- {
+		out = append(out, kit.A("SADD", "s1", "churn"), kit.A("SREM", "s1", "churn"))
+	}
+	for i := rapid.IntRange(1, 3).Draw(t, "algs"); i > 0; i-- {
+		out = append(out, kit.A(pick(t, "alg", []string{"SINTER", "s1", "s2"}, []string{"SINTERSTORE", "dst", "s1", "s2"}, []string{"SDIFF", "s1", "s2"}, []string{"SDIFFSTORE", "dst", "s1", "s2"},
+			[]string{"SINTER", "s1", "s2", "s1"}, []string{"SUNION", "s1", "s2"}, []string{"SINTERCARD", "2", "s1", "s2"}, []string{"SINTERSTORE", "s1", "s1", "s2"})...))
+	}
+	return out
+}
+
 func c05Gen(t *rapid.T) SeqCase {
 	steps := []kit.Argv{kit.A("SET", "str", "v")}
 	n := rapid.IntRange(8, 45).Draw(t, "steps")
 	for i := 0; i < n; i++ {
+		if rapid.IntRange(0, 39).Draw(t, "sparse") == 0 {
+			steps = append(steps, c05Sparse(t)...)
+			continue
+		}
 		steps = append(steps, c05Step(t))
 	}
 	return SeqCase{Steps: steps}
